@@ -113,3 +113,45 @@ NATIVE.update({"sha256_digest": lambda b: hashlib.sha256(b).digest(),
                "json_bytes": lambda d: json.dumps(d).encode("utf-8"),
                "jhas": lambda d, k: isinstance(d, dict) and k in d, "jget": lambda d, k: d[k],
                "reached": lambda n, e: e is not None and n >= e})
+
+# ---- C06 / C07 (transit)
+def be_value(b):
+    return int.from_bytes(b, "big")
+
+
+def be_enc(v, n):
+    return int(v).to_bytes(n, "big")
+
+
+def min2(a, b):
+    return a if a < b else b
+
+
+def exc_class(x):
+    return type(x).__name__
+
+
+def _hkdf(key, length, info):
+    from wormhole.util import HKDF
+    return HKDF(key, length, CTXinfo=info)
+
+
+def hexl(b):
+    import binascii
+    return binascii.hexlify(b)
+
+
+def sender_hs(key):
+    return b"transit sender " + hexl(_hkdf(key, 32, b"transit_sender")) + b" ready\n\n"
+
+
+def receiver_hs(key):
+    return b"transit receiver " + hexl(_hkdf(key, 32, b"transit_receiver")) + b" ready\n\n"
+
+
+def ite(c, a, b):
+    return a if c else b
+
+
+NATIVE.update({"be_value": be_value, "be_enc": be_enc, "min2": min2, "exc_class": exc_class, "hkdf": _hkdf, "hexl": hexl,
+               "sender_hs": sender_hs, "receiver_hs": receiver_hs, "ite": ite})
